@@ -60,6 +60,7 @@ PLANS = {
         gates=dict(any=dict()),
     ),
     "C05": dict(
+        logcheck=True,
         lanes=dict(quick=[("rel", N), ("dbg", N), ("miri", N)],
                    thorough=[("rel", N), ("dbg", N), ("asan", N), ("miri", N), ("mirirel", N)]),
         rule="cases = (RSQVector256|RSQVector512) x quaternary input spec x construction path (new(&[u8]), new(&[u64]), From<QVector>, collect); "
@@ -71,6 +72,7 @@ PLANS = {
         gates=dict(rel=dict(max_select_samples_one_symbol=3, max_superblocks=20)),
     ),
     "C06": dict(
+        logcheck=True,
         lanes=dict(quick=[("rel", N), ("dbg", N), ("miri", N)],
                    thorough=[("rel", N), ("dbg", N), ("asan", N), ("miri", N), ("mirirel", N)]),
         rule="cases = (RSNarrow|RSWide) x bit-vector spec x construction path (new/From, from bools / from positions); specs: boundary lengths "
